@@ -36,6 +36,13 @@ def workdir(pid):
     return d
 
 
+def workpath(pid):
+    """the work area of pid without wiping it (for the later stages of one check)"""
+    d = os.path.join(os.environ.get("VERIF_SCRATCH") or os.path.join(BUILD, "work"), pid)
+    os.makedirs(d, exist_ok=True)
+    return d
+
+
 def run(cmd, timeout=1800, cwd=None, input=None):
     p = subprocess.run(cmd, stdout=subprocess.PIPE, stderr=subprocess.PIPE, cwd=cwd,
                        timeout=timeout, input=input)
